@@ -293,3 +293,51 @@ def shrink(ops, fails, budget=120):
                 break
             n = min(len(ops), n * 2)
     return ops
+
+
+# ---------------------------------------------------------------------------
+# resilient running (a sanitizer abort ends the process: keep the transcript, go on)
+# ---------------------------------------------------------------------------
+
+def run_impl_resilient(exe, work, kind, histories, tag="h", max_crashes=4, timeout=1500):
+    """Run all histories; after an abnormal end rerun the remaining ones.
+    Returns (outputs aligned with histories [(header, lines)|None], crashes=[(index, rc, stderr)])."""
+    outs = [None] * len(histories)
+    crashes = []
+    start = 0
+    while start < len(histories):
+        res, rc, err = run_impl(exe, work, kind, histories[start:], tag=tag, timeout=timeout)
+        for j, r in enumerate(res):
+            outs[start + j] = r
+        if rc == 0 and len(res) == len(histories) - start:
+            break
+        bad = start + max(len(res) - 1, 0)
+        crashes.append((bad, rc, err[-5000:]))
+        start = bad + 1
+        if len(crashes) >= max_crashes:
+            break
+    return outs, crashes
+
+
+def wf_flags(model_exe, lines):
+    """C02 oracle (extracted Spec.wf_viewb / wf_view_utf8b) on observation lines -> [(core, utf8)]."""
+    rc, out, err = vlib.sh2([model_exe, "wf"], stdin="\n".join(lines) + "\n", timeout=900)
+    res = []
+    for l in out.split("\n"):
+        if l.strip():
+            a, _, b = l.partition(" ")
+            res.append((a, b))
+    return res
+
+
+def buf_expected(model_exe, histories):
+    """C05 oracle (extracted buffer spec) -> per history list of expected 'h I=.. K=..' strings."""
+    res, rc, err = run_model(model_exe, histories, mode="buf")
+    return [r[1] for r in res]
+
+
+def edit_got(line):
+    d = parse_obs(line)
+    if "crash" in d:
+        return line, "?"
+    return "%s I=%s K=%d" % (d["ret"], d["I"], d["K"]), d.get("C", "?")
